@@ -17,7 +17,7 @@ import (
 
 // ---------------------------------------------------------------- FixedSliceWriter
 type fop struct {
-	k string // b f l u u3 u6 i z y m
+	k string // b f l u u3 u6 i z y m s (s = WriteString(string(b), v == 1))
 	v uint64
 	i int64
 	w int // width (b), byte count (u, i, z)
@@ -40,6 +40,8 @@ func (o fop) String() string {
 		return "z:" + strconv.Itoa(o.w)
 	case "y":
 		return "y:" + hx.Hex(o.b)
+	case "s":
+		return "s:" + hx.Hex(o.b) + ":" + hx.HexU(o.v)
 	}
 	return o.k
 }
@@ -91,6 +93,8 @@ func applyFop(sw *bits.FixedSliceWriter, o fop) {
 		sw.WriteZeroBytes(o.w)
 	case "y":
 		sw.WriteBytes(o.b)
+	case "s":
+		sw.WriteString(string(o.b), o.v == 1)
 	case "m":
 		sw.WriteUnityMatrix()
 	}
@@ -119,7 +123,7 @@ func genFops(r *hx.Rng, bitsOnly bool) []fop {
 	n := r.Range(0, 16)
 	ops := make([]fop, 0, n)
 	for i := 0; i < n; i++ {
-		c := r.Intn(16)
+		c := r.Intn(17)
 		if bitsOnly {
 			c = r.Intn(7)
 		}
@@ -174,6 +178,8 @@ func genFops(r *hx.Rng, bitsOnly bool) []fop {
 			ops = append(ops, fop{k: "y", b: r.Bytes(r.Range(0, 6), nil)})
 		case 15:
 			ops = append(ops, fop{k: "m"})
+		case 16: // WriteString: any bytes (a Go string is its bytes), with and without the zero terminator
+			ops = append(ops, fop{k: "s", b: r.Bytes(r.Range(0, 6), nil), v: uint64(r.Intn(2))})
 		}
 	}
 	return ops
@@ -289,6 +295,11 @@ func fopBytes(o fop) []byte {
 	case "z":
 		return make([]byte, o.w)
 	case "y":
+		return o.b
+	case "s":
+		if o.v == 1 {
+			return append(append([]byte{}, o.b...), 0)
+		}
 		return o.b
 	case "m":
 		var b []byte
